@@ -1,6 +1,7 @@
 CONSTANTS
-  Workers <- MCNoWorkers
-  NTs <- MCNTs
+  Workers <- Workers_then2
+  NTs <- NTs_then2
+  ThreadNames <- Threads_then2
   WyFix = FALSE
   AllowSpurious = FALSE
 INIT Init_then2
